@@ -443,6 +443,14 @@ func liveCharge(g map[string]uint64, fn string, args [][]byte) uint64 {
 		return g["ESDTNFTUpdateAttributes"] + uint64(len(args[2]))*g["StorePerByte"]
 	case vmcommon.BuiltInFunctionESDTLocalMint:
 		return g["ESDTLocalMint"]
+	case vmcommon.BuiltInFunctionESDTLocalBurn:
+		return g["ESDTLocalBurn"]
+	case vmcommon.BuiltInFunctionESDTBurn:
+		return g["ESDTBurn"]
+	case vmcommon.BuiltInFunctionESDTNFTAddQuantity:
+		return g["ESDTNFTAddQuantity"]
+	case vmcommon.BuiltInFunctionESDTNFTBurn:
+		return g["ESDTNFTBurn"]
 	case vmcommon.BuiltInFunctionESDTTransfer:
 		return g["ESDTTransfer"]
 	}
@@ -485,9 +493,9 @@ func c19Live(lc *liveCase) (string, string, int) {
 		ps[t] = p
 		setup := []*Call{
 			{Fn: vmcommon.BuiltInFunctionESDTTransfer, Caller: sys, Rcv: p.a, Args: hbs(p.ftok, new(big.Int).Lsh(big.NewInt(1), 60).Bytes())},
-			{Fn: vmcommon.BuiltInFunctionSetESDTRole, Caller: sys, Rcv: p.a, Args: hbs(p.ftok, []byte(vmcommon.ESDTRoleLocalMint))},
-			{Fn: vmcommon.BuiltInFunctionSetESDTRole, Caller: sys, Rcv: p.a, Args: hbs(p.ntok, []byte(vmcommon.ESDTRoleNFTCreate), []byte(vmcommon.ESDTRoleNFTAddURI), []byte(vmcommon.ESDTRoleNFTUpdateAttributes))},
-			{Fn: vmcommon.BuiltInFunctionESDTNFTCreate, Caller: p.a, Rcv: p.a, Gas: ampleGas, Args: hbs(p.ntok, []byte{1}, []byte("n"), []byte{}, []byte("h"), []byte{}, []byte("u"))},
+			{Fn: vmcommon.BuiltInFunctionSetESDTRole, Caller: sys, Rcv: p.a, Args: hbs(p.ftok, []byte(vmcommon.ESDTRoleLocalMint), []byte(vmcommon.ESDTRoleLocalBurn))},
+			{Fn: vmcommon.BuiltInFunctionSetESDTRole, Caller: sys, Rcv: p.a, Args: hbs(p.ntok, []byte(vmcommon.ESDTRoleNFTCreate), []byte(vmcommon.ESDTRoleNFTAddQuantity), []byte(vmcommon.ESDTRoleNFTBurn), []byte(vmcommon.ESDTRoleNFTAddURI), []byte(vmcommon.ESDTRoleNFTUpdateAttributes))},
+			{Fn: vmcommon.BuiltInFunctionESDTNFTCreate, Caller: p.a, Rcv: p.a, Gas: ampleGas, Args: hbs(p.ntok, new(big.Int).Lsh(big.NewInt(1), 40).Bytes(), []byte("n"), []byte{}, []byte("h"), []byte{}, []byte("u"))},
 		}
 		for _, c := range setup {
 			if err := must(c); err != nil {
@@ -530,11 +538,36 @@ func c19Live(lc *liveCase) (string, string, int) {
 					c = &Call{Fn: vmcommon.BuiltInFunctionESDTNFTUpdateAttributes, Caller: p.a, Rcv: p.a, Args: hbs(p.ntok, []byte{1}, append([]byte("a"), blob...))}
 				case "mint":
 					c = &Call{Fn: vmcommon.BuiltInFunctionESDTLocalMint, Caller: p.a, Rcv: p.a, Args: hbs(p.ftok, []byte{1})}
+				case "localburn":
+					c = &Call{Fn: vmcommon.BuiltInFunctionESDTLocalBurn, Caller: p.a, Rcv: p.a, Args: hbs(p.ftok, []byte{1})}
+				case "burn":
+					c = &Call{Fn: vmcommon.BuiltInFunctionESDTBurn, Caller: p.a, Rcv: sys, Args: hbs(p.ftok, []byte{1})}
+				case "addq":
+					c = &Call{Fn: vmcommon.BuiltInFunctionESDTNFTAddQuantity, Caller: p.a, Rcv: p.a, Args: hbs(p.ntok, []byte{1}, []byte{2})}
+				case "nftburn":
+					c = &Call{Fn: vmcommon.BuiltInFunctionESDTNFTBurn, Caller: p.a, Rcv: p.a, Args: hbs(p.ntok, []byte{1}, []byte{1})}
+				case "nfttransfer":
+					c = &Call{Fn: vmcommon.BuiltInFunctionESDTNFTTransfer, Caller: p.a, Rcv: p.a, Args: hbs(p.ntok, []byte{1}, []byte{1}, p.b)}
+				case "multi":
+					c = &Call{Fn: vmcommon.BuiltInFunctionMultiESDTNFTTransfer, Caller: p.a, Rcv: p.a, Args: hbs(p.b, []byte{2}, p.ftok, []byte{0}, []byte{1}, p.ntok, []byte{1}, []byte{1})}
+				case "freeze":
+					c = &Call{Fn: vmcommon.BuiltInFunctionESDTFreeze, Caller: sys, Rcv: p.b, Args: hbs(p.ntok)}
+				case "unfreeze":
+					c = &Call{Fn: vmcommon.BuiltInFunctionESDTUnFreeze, Caller: sys, Rcv: p.b, Args: hbs(p.ntok)}
+				case "pause":
+					c = &Call{Fn: vmcommon.BuiltInFunctionESDTPause, Caller: sys, Rcv: vmcommon.SystemAccountAddress, Args: hbs([]byte(fmt.Sprintf("XX%02d-cccccc", t)))}
+				case "unpause":
+					c = &Call{Fn: vmcommon.BuiltInFunctionESDTUnPause, Caller: sys, Rcv: vmcommon.SystemAccountAddress, Args: hbs([]byte(fmt.Sprintf("XX%02d-cccccc", t)))}
+				case "setrole":
+					c = &Call{Fn: vmcommon.BuiltInFunctionSetESDTRole, Caller: sys, Rcv: p.b, Args: hbs(p.ftok, []byte(vmcommon.ESDTRoleLocalBurn))}
+				case "unsetrole":
+					c = &Call{Fn: vmcommon.BuiltInFunctionUnSetESDTRole, Caller: sys, Rcv: p.b, Args: hbs(p.ftok, []byte(vmcommon.ESDTRoleLocalBurn))}
 				default:
 					c = &Call{Fn: vmcommon.BuiltInFunctionESDTTransfer, Caller: p.a, Rcv: p.b, Args: hbs(p.ftok, []byte{1})}
 				}
 				c.Gas = ampleGas
 				o := obs{fn: c.Fn, a: liveCharge(fa, c.Fn, args2bytes(c.Args)), b: liveCharge(fb, c.Fn, args2bytes(c.Args))}
+				priced := o.a != 0
 				func() {
 					defer func() { o.pan = recover() }()
 					fn, _ := sh.Container.Get(c.Fn)
@@ -543,6 +576,9 @@ func c19Live(lc *liveCase) (string, string, int) {
 					o.err = err
 					if out != nil {
 						o.consumed = c.Gas - out.GasRemaining
+						if !priced {
+							o.a, o.b = o.consumed, o.consumed // functions without a simple closed-form charge: race / success only
+						}
 					}
 				}()
 				results[t] = append(results[t], o)
@@ -618,7 +654,7 @@ func genLive(rt *rapid.T) *liveCase {
 		k := rapid.IntRange(1, 12).Draw(rt, "live-nops")
 		ops := make([]liveOp, k)
 		for j := range ops {
-			ops[j] = liveOp{Kind: rapid.SampledFrom([]string{"skv", "create", "adduri", "update", "mint", "transfer", "skv", "create"}).Draw(rt, "live-kind"), Size: rapid.SampledFrom([]int{0, 1, 17, 200}).Draw(rt, "live-size")}
+			ops[j] = liveOp{Kind: rapid.SampledFrom([]string{"skv", "create", "adduri", "update", "mint", "transfer", "skv", "create", "localburn", "burn", "addq", "nftburn", "nfttransfer", "multi", "freeze", "unfreeze", "pause", "unpause", "setrole", "unsetrole", "adduri", "update"}).Draw(rt, "live-kind"), Size: rapid.SampledFrom([]int{0, 1, 17, 200}).Draw(rt, "live-size")}
 		}
 		lc.Threads = append(lc.Threads, ops)
 	}
